@@ -96,17 +96,18 @@ for f in sorted(glob.glob(os.path.join(ROOT, "seeded", "*", "meta.json"))):
     else:
         c_no += 1
         if "OUTSIDE" in by: outside.append(os.path.basename(os.path.dirname(f)))
-para = ("**How to read the table** (numbers regenerated from `seeded/*/meta.json`).  %d seeded changes, produced in up to three "
+para = ("**How to read the table** (numbers regenerated from `seeded/*/meta.json`).  %d seeded changes, produced in up to four "
  "independent rounds of three per property by sub-agents that saw only the property's text and a scratch worktree (later rounds were "
  "told the earlier rounds' ideas and asked for other mechanisms).  Every change compiles, passes the unedited test suite and comes "
  "with a demonstration test that fails with it and passes without it (re-confirmed by `tools/validate_seed.sh` in a scratch worktree "
  "before it was kept).  %d were caught by the owning property's quick check as it stood; %d were **missed at first** and are caught "
- "after the check was strengthened - always the generator (an input class nobody had thought of: white-space-only query text, "
+ "after the check was strengthened - the generator (an input class nobody had thought of) or a new observation (stack use, the application's own storage, the caller's request object, an unread result at an idle entry) - for example: white-space-only query text, "
  "non-ASCII white space in block strings, typed-nil errors next to a value, one field node in two merged lists, lists of non-null "
  "lists, item nullability in response shapes, variables with defaults and an empty variable map, argument defaults differing between "
  "implementations of one interface, frames pipelined behind a closing trigger, server-initiated close during a handler call, a mute "
  "peer, a slow reader, chunked request bodies, id reuse on one socket, custom relationship resolvers sharing a map, features derived "
- "from the init hook, gated connection edge fields, deprecated members, two feature sets on one schema value, error message texts), "
+ "from the init hook, gated connection edge fields, deprecated members, two feature sets on one schema value, error message texts, a storage that applies writes late, a getter answering windows of its own storage, a schema built from Clone(), a client that stops reading, "
+ "stack use of flat documents, abstract-typed fields resolved by promises; "
  "never a loosened oracle; %d break a mechanism that is another property's anchored code and are caught by that property's check "
  "(`detected_by` says which); %d are *partial* (so far caught by a neighbouring check only) and %d are *no*%s.  The misses are the most "
  "useful output of this exercise: each one is written into the owning check's design note as a rehearsal row with the replay key that "
